@@ -1,0 +1,119 @@
+//go:build verif
+
+// Accessors used only by the /verif harness (properties C27, C28, C25): the cipher
+// suite table as data, and a read-only view of a Conn's record-layer state.
+// Compiled only with -tags verif; adds no behaviour to the library.
+
+package tls
+
+import (
+	"crypto/cipher"
+	"fmt"
+	"strings"
+)
+
+// VerifSuite is one row of utlsSupportedCipherSuites, with the constructor
+// fields replaced by what they construct (probed with all-zero keys).
+type VerifSuite struct {
+	ID     uint16
+	KeyLen int
+	MacLen int
+	IVLen  int
+	Flags  int
+	// Kind: 1 RC4 (cipher.Stream), 2 3DES-CBC, 3 AES-CBC, 4 AES-GCM (prefix nonce), 5 ChaCha20-Poly1305 (xor nonce)
+	Kind int
+	// MacSize is mac(key).Size() for stream/CBC suites, 0 for AEAD suites.
+	MacSize int
+	// BlockSize of the CBC mode, 0 otherwise.
+	BlockSize int
+	// ExplicitNonceLen of the AEAD, 0 otherwise.
+	ExplicitNonceLen int
+}
+
+// VerifSuiteFlag* re-export the suite flag bits so the harness can decode Flags.
+const (
+	VerifSuiteECDHE  = suiteECDHE
+	VerifSuiteECSign = suiteECSign
+	VerifSuiteTLS12  = suiteTLS12
+	VerifSuiteSHA384 = suiteSHA384
+)
+
+// VerifCipherSuiteTable returns the current contents of utlsSupportedCipherSuites, in order.
+func VerifCipherSuiteTable() []VerifSuite {
+	out := make([]VerifSuite, 0, len(utlsSupportedCipherSuites))
+	for _, cs := range utlsSupportedCipherSuites {
+		v := VerifSuite{ID: cs.id, KeyLen: cs.keyLen, MacLen: cs.macLen, IVLen: cs.ivLen, Flags: cs.flags}
+		if cs.cipher != nil {
+			switch c := cs.cipher(make([]byte, cs.keyLen), make([]byte, cs.ivLen), false).(type) {
+			case cipher.Stream:
+				v.Kind = 1
+			case cbcMode:
+				v.BlockSize = c.BlockSize()
+				if v.BlockSize == 8 {
+					v.Kind = 2
+				} else {
+					v.Kind = 3
+				}
+			}
+			v.MacSize = cs.mac(make([]byte, cs.macLen)).Size()
+		} else if cs.aead != nil {
+			a := cs.aead(make([]byte, cs.keyLen), make([]byte, cs.ivLen))
+			v.ExplicitNonceLen = a.explicitNonceLen()
+			if v.ExplicitNonceLen > 0 {
+				v.Kind = 4
+			} else {
+				v.Kind = 5
+			}
+		}
+		out = append(out, v)
+	}
+	return out
+}
+
+// VerifHalf describes one direction of a Conn's record layer.
+type VerifHalf struct {
+	Version   uint16
+	Seq       uint64
+	HasCipher bool
+	// Kind as in VerifSuite (0 when no cipher is installed).
+	Kind int
+	// IsDecrypter: the CBC mode was built by cipher.NewCBCDecrypter (only meaningful for Kind 2, 3).
+	IsDecrypter bool
+	HasMac      bool
+	TypeName    string
+}
+
+func verifHalf(hc *halfConn) VerifHalf {
+	hc.Lock()
+	defer hc.Unlock()
+	h := VerifHalf{Version: hc.version, HasCipher: hc.cipher != nil, HasMac: hc.mac != nil}
+	for i := 0; i < 8; i++ {
+		h.Seq = h.Seq<<8 | uint64(hc.seq[i])
+	}
+	if hc.cipher != nil {
+		h.TypeName = fmt.Sprintf("%T", hc.cipher)
+		switch c := hc.cipher.(type) {
+		case cipher.Stream:
+			h.Kind = 1
+		case aead:
+			if c.explicitNonceLen() > 0 {
+				h.Kind = 4
+			} else {
+				h.Kind = 5
+			}
+		case cbcMode:
+			if c.BlockSize() == 8 {
+				h.Kind = 2
+			} else {
+				h.Kind = 3
+			}
+			h.IsDecrypter = strings.Contains(h.TypeName, "Decrypter")
+		}
+	}
+	return h
+}
+
+// VerifRecordState returns the read (in) and write (out) halves of c.
+func VerifRecordState(c *Conn) (in, out VerifHalf) {
+	return verifHalf(&c.in), verifHalf(&c.out)
+}
